@@ -50,7 +50,7 @@ impl Op {
 pub fn universe_spec(kind: &str) -> Vec<String> {
     match kind {
         // >= 6 native and cw20 assets
-        "main" => ["n:uwhale", "n:uusdc", "n:uatom", "n:ubtc", "t:TOKA", "t:TOKB", "n:uluna"].iter().map(|s| s.to_string()).collect(),
+        "main" | "main_stable" => ["n:uwhale", "n:uusdc", "n:uatom", "n:ubtc", "t:TOKA", "t:TOKB", "n:uluna"].iter().map(|s| s.to_string()).collect(),
         // two different asset sets whose sorted concatenations coincide: {abc, abcd} and {abca, bcd}
         "ambiguous" => ["n:abc", "n:abcd", "n:abca", "n:bcd", "n:uwhale"].iter().map(|s| s.to_string()).collect(),
         // a key that is another key followed by a byte <= 1 (not a valid Cosmos denom; the factory does not validate denoms)
@@ -66,6 +66,7 @@ pub struct W19 {
     pub b: BaseWorld,
     pub u: Vec<AssetInfo>,
     pub born: BTreeMap<String, i64>,     // child contract address -> index of the operation that created it
+    pub stable_types: bool,              // pairs are created as StableSwap pairs of various amplifications (universe `main_stable`; no hops there)
 }
 
 pub fn world19(spec: &[String]) -> W19 {
@@ -74,7 +75,7 @@ pub fn world19(spec: &[String]) -> W19 {
     let b = base_world(&natives, &toks);
     let mut ti = 0;
     let u = spec.iter().map(|s| if let Some(d) = s.strip_prefix("n:") { native(d) } else { let a = token(&b.cw20s[ti]); ti += 1; a }).collect();
-    W19 { b, u, born: BTreeMap::new() }
+    W19 { b, u, born: BTreeMap::new(), stable_types: false }
 }
 
 fn catch<T>(f: impl FnOnce() -> anyhow::Result<T>) -> Option<T> {
@@ -132,8 +133,12 @@ impl W19 {
             Op::CreatePair(a, b) => {
                 let fac = self.b.factory.clone();
                 let infos = [self.u[a].clone(), self.u[b].clone()];
+                // every third creation is a StableSwap pair, with amplifications in and out of the 3pool's range (the pair does not validate it):
+                // whatever type the registry records, the pair itself must report the same
+                let pair_type = if !self.stable_types { PairType::ConstantProduct } else {
+                    match k % 4 { 0 => PairType::StableSwap { amp: 100 }, 1 => PairType::StableSwap { amp: 0 }, 2 => PairType::StableSwap { amp: 2_000_000 }, _ => PairType::ConstantProduct } };
                 let r = catch(|| self.b.app.execute_contract(adm.clone(), fac, &f::ExecuteMsg::CreatePair { asset_infos: infos, pool_fees: Self::fees(),
-                    pair_type: PairType::ConstantProduct, token_factory_lp: false }, &[]));
+                    pair_type, token_factory_lp: false }, &[]));
                 if r.is_none() { return false; }
                 if let Some(p) = self.lookup_pair(a, b) { self.born.entry(p.contract_addr.clone()).or_insert(k as i64); self.provide(&Addr::unchecked(p.contract_addr), a, b); }
                 // afterwards the factory's owner registers the pair's first native asset with OTHER decimals (the allow-list is overwritten):
@@ -288,6 +293,7 @@ pub struct HistoryResult { pub obs: Vec<String> }
 pub fn run_history(out: &mut Out, uni: &str, h: &[Op], record: bool) -> HistoryResult {
     let spec = universe_spec(uni);
     let mut w = world19(&spec);
+    w.stable_types = uni == "main_stable";
     let replay = json!({"kind": "registry_history", "universe": uni, "assets": spec, "ops": serde_json::to_value(h).unwrap(),
                         "note": "operations name assets by their index in `assets` (n: native denom, t: cw20 symbol); AddRoute(offer, ask, hops)"});
     let mut obs: Vec<String> = vec![];
@@ -615,6 +621,10 @@ fn corpus() -> Vec<(&'static str, Vec<Op>)> {
                         Op::CreateTrio(0, 1, 2), Op::CreateTrio(0, 1, 6), Op::CreateTrio(0, 1, 3), Op::CreateTrio(4, 1, 0),
                         Op::CreateVault(1), Op::CreateVault(2), Op::CreateVault(6), Op::CreateVault(3), Op::CreateVault(0),
                         Op::CreateIncentive(1), Op::CreateIncentive(2), Op::CreateIncentive(6), Op::CreateIncentive(3), Op::RemovePair(0, 1), Op::CreatePair(1, 0)]),
+        // StableSwap pairs with amplifications in and out of the three-asset pool's range (the pair does not validate it): whatever type
+        // the registry records, the pair itself reports the same; no liquidity-dependent operation in this history
+        ("main_stable", vec![Op::CreatePair(0, 1), Op::CreatePair(2, 0), Op::CreatePair(0, 3), Op::CreatePair(4, 0), Op::CreatePair(1, 2), Op::CreatePair(5, 1), Op::CreatePair(3, 1),
+                             Op::RemovePair(0, 1), Op::CreatePair(1, 0), Op::CreatePair(4, 5)]),
         // known finding: ambiguous concatenated keys
         ("ambiguous", vec![Op::CreatePair(0, 1), Op::CreatePair(2, 3), Op::ExecHop(2, 3), Op::RemovePair(3, 2), Op::CreatePair(3, 2), Op::CreatePair(1, 0), Op::CreateTrio(0, 1, 4), Op::CreateTrio(2, 3, 4)]),
         // known finding: a key that extends another key by a byte <= 1 is skipped by the cursor
